@@ -45,7 +45,11 @@ func (e *kvElection) watchLoop(ctx context.Context) {
 				// When watcher closes, check if key still exists
 				// If not, trigger re-election
 				if !e.IsLeader() {
-					go e.checkKeyAndReelect(ctx)
+					e.wg.Add(1)
+					go func() {
+						defer e.wg.Done()
+						e.checkKeyAndReelect(ctx)
+					}()
 				}
 				return
 			}
@@ -58,6 +62,20 @@ func (e *kvElection) watchLoop(ctx context.Context) {
 			}
 		}
 	}
+}
+
+// startAcquire runs an acquisition round on a goroutine that Stop waits for.
+// Callers run on tracked goroutines themselves, so the wait group counter is
+// non-zero here. A nil context means the election has been stopped.
+func (e *kvElection) startAcquire(ctx context.Context) {
+	if ctx == nil {
+		return
+	}
+	e.wg.Add(1)
+	go func() {
+		defer e.wg.Done()
+		e.attemptAcquireWithRetry(ctx)
+	}()
 }
 
 // checkKeyAndReelect checks if the key exists and triggers re-election if it doesn't.
@@ -76,7 +94,7 @@ func (e *kvElection) checkKeyAndReelect(ctx context.Context) {
 				zap.Error(err),
 			)...,
 		)
-		go e.attemptAcquireWithRetry(ctx)
+		e.startAcquire(ctx)
 		return
 	}
 
@@ -86,7 +104,7 @@ func (e *kvElection) checkKeyAndReelect(ctx context.Context) {
 		log.Debug("key_empty_triggering_reelection",
 			e.logWithContext(ctx)...,
 		)
-		go e.attemptAcquireWithRetry(ctx)
+		e.startAcquire(ctx)
 		return
 	}
 
@@ -129,7 +147,7 @@ func (e *kvElection) handleWatchEvent(entry Entry) {
 				zap.String("key", e.key),
 			)...,
 		)
-		go e.attemptAcquireWithRetry(e.electionContext())
+		e.startAcquire(e.electionContext())
 		return
 	}
 
@@ -141,7 +159,7 @@ func (e *kvElection) handleWatchEvent(entry Entry) {
 				zap.String("key", e.key),
 			)...,
 		)
-		go e.attemptAcquireWithRetry(e.electionContext())
+		e.startAcquire(e.electionContext())
 		return
 	}
 
